@@ -2,7 +2,7 @@
 # Builds the whole Coq development (full .vo build, never -vos) and the extracted models. Offline.
 set -e
 cd "$(dirname "$0")"
-mkdir -p coq/_gen coq/_build evidence
+mkdir -p work/gen work/build evidence
 PYTHONPATH=harness /venv/bin/python - <<'PY'
 import sys, common
 ok, out = common.coq_make([], timeout=7000)
